@@ -201,9 +201,9 @@ class P:
         self.i = j
         body = run[1:] if run[:1] in (b"+", b"-") else run
         if self.nan and body[:1] in (b"n", b"N"):
-            return ("f", 0x7FC00000)
+            return ("NAN",)
         if self.inf and body[:1] in (b"i", b"I"):
-            return ("f", 0xFF800000 if run[:1] == b"-" else 0x7F800000)
+            return ("INF", run[:1] == b"-")
         if not NUM_RE.match(run):
             raise Stop("InvalidInput")
         txt = run.decode()
@@ -227,7 +227,7 @@ def recognize(text, comments=False, nan=False, inf=False, decode_unicode=True, l
         return None
     except RecursionError:
         return None
-    if v[0] in ("U", "I", "Q") or (v[0] == "f" and (nan or inf)):
+    if v[0] in ("U", "I", "Q", "NAN", "INF"):
         c = p.peek()
         if c is not None:
             if c in WS and number_then_ws_ok:
